@@ -11,6 +11,34 @@ let str_runs (rs : run list) : string =
         List.iter (fun g -> List.iter (fun v -> Buffer.add_string b (" " ^ tok_of_n v)) g) gs) rs;
   Buffer.contents b
 
+let shapes : (string, ((bytes * rept) * ty) list) Hashtbl.t = Hashtbl.create 64
+let shape name = try Hashtbl.find shapes name with Not_found -> failwith ("unknown shape " ^ name)
+
+let verr_name (e : verr) : string = match e with
+  | ETooShort -> "ETooShort" | EHeadMagic -> "EHeadMagic" | ETailMagic -> "ETailMagic" | EFooterLen -> "EFooterLen"
+  | EFooterDecode -> "EFooterDecode" | EFooterTrailing -> "EFooterTrailing" | ESchemaEmpty -> "ESchemaEmpty"
+  | ESchemaTree -> "ESchemaTree" | ESchemaLeaf -> "ESchemaLeaf" | ESchemaGroup -> "ESchemaGroup" | ESchemaLeftover -> "ESchemaLeftover"
+  | EColumnCount -> "EColumnCount" | EChunkNoMeta -> "EChunkNoMeta" | EChunkPath -> "EChunkPath" | EChunkType -> "EChunkType"
+  | EChunkCodec -> "EChunkCodec" | EChunkOffset -> "EChunkOffset" | EChunkFileOffset -> "EChunkFileOffset"
+  | EPageHeader -> "EPageHeader" | EPageType -> "EPageType" | EPageEncoding -> "EPageEncoding" | EPageSizes -> "EPageSizes"
+  | EPageBody -> "EPageBody" | EPageDecompress -> "EPageDecompress" | EPageUncompressedSize -> "EPageUncompressedSize"
+  | EPageRepLevels -> "EPageRepLevels" | EPageDefLevels -> "EPageDefLevels" | EPageLevelRange -> "EPageLevelRange"
+  | EPageLevelPadding -> "EPageLevelPadding" | EPageFirstRep -> "EPageFirstRep" | EPageValues -> "EPageValues" | EPageEmpty -> "EPageEmpty"
+  | EChunkCompressedSize -> "EChunkCompressedSize" | EChunkUncompressedSize -> "EChunkUncompressedSize" | EChunkNumValues -> "EChunkNumValues"
+  | ERowGroupRows -> "ERowGroupRows" | ERowGroupByteSize -> "ERowGroupByteSize" | EGapBeforeFooter -> "EGapBeforeFooter"
+  | EFileRows -> "EFileRows" | EAssemble -> "EAssemble" | EFuel -> "EFuel"
+
+let parse_ops tk nops : op list =
+  List.init nops (fun _ -> match next tk with
+      | "A" -> OpAdd (parse_value tk)
+      | "W" -> OpWrite
+      | s -> failwith ("bad op " ^ s))
+
+let print_entries b (es : entry list) =
+  Buffer.add_string b (" " ^ string_of_int (List.length es));
+  List.iter (fun e -> Buffer.add_string b (" " ^ tok_of_n e.e_rep ^ " " ^ tok_of_n e.e_def);
+              match e.e_val with Some v -> print_value b v | None -> Buffer.add_string b " -") es
+
 let dispatch kind (tk : toks) : string =
   match kind with
   | "rleenc" -> let w = tn tk in let ls = tnlist tk in hex_of_bytes (rle_encode w ls)
@@ -23,4 +51,70 @@ let dispatch kind (tk : toks) : string =
     (match hybrid_decode_framed w bs with
      | Some (rs, rest) -> str_runs rs ^ " REST " ^ string_of_int (List.length rest)
      | None -> "NONE")
+  | "shape" -> let name = next tk in Hashtbl.replace shapes name (fields_of_ty (parse_ty tk)); "OK"
+  | "write" ->
+    let fs = shape (next tk) in
+    let codec = tint tk in let max = tint tk in let failat = tint tk in let _mutate = tint tk in let nops = tint tk in
+    let ops = parse_ops tk nops in
+    let cfg = { cfg_fields = fs; cfg_max = nat_of_int max; cfg_codec = z_of_int codec } in
+    let calls = run_history compress cfg ops in
+    let (flags, writes) = run_fault calls (if failat < 0 then None else Some (nat_of_int failat)) in
+    let b = Buffer.create 4096 in
+    Buffer.add_string b "OK ";
+    List.iter (fun f -> Buffer.add_char b (if f then '1' else '0')) flags;
+    Buffer.add_string b (" " ^ string_of_int (List.length writes));
+    List.iter (fun w -> Buffer.add_char b ' '; Buffer.add_string b (hex_of_bytes w)) writes;
+    Buffer.contents b
+  | "validate" ->
+    (* validate <level> <hexfile>: 0 summary, 1 + records, 2 + column entries *)
+    let level = tint tk in let file = tbytes tk in
+    (match check_file decompress file with
+     | Inl e -> "INVALID " ^ verr_name e
+     | Inr v ->
+       let b = Buffer.create 4096 in
+       let rgs = v.fv_rgs in
+       let pages = List.concat_map (fun rg -> List.concat_map (fun cv -> cv.cv_pages) rg.rv_chunks) rgs in
+       let maxrecs = List.fold_left (fun m pv -> max m (int_of_n pv.pv_records)) 0 pages in
+       let statsok = List.for_all (fun pv -> pv.pv_stats_ok) pages in
+       Buffer.add_string b ("VALID nrg=" ^ string_of_int (List.length rgs));
+       Buffer.add_string b (" rows=" ^ String.concat "," (List.map (fun rg -> tok_of_n rg.rv_rows) rgs));
+       Buffer.add_string b (" npages=" ^ string_of_int (List.length pages));
+       Buffer.add_string b (" maxpagerecs=" ^ string_of_int maxrecs);
+       Buffer.add_string b (" statsok=" ^ (if statsok then "1" else "0"));
+       Buffer.add_string b (" ncols=" ^ string_of_int (List.length v.fv_cols));
+       if level >= 1 then begin
+         let recs = view_records v in
+         Buffer.add_string b (" recs " ^ string_of_int (List.length recs));
+         List.iter (print_value b) recs
+       end;
+       if level >= 2 then begin
+         (* per row group, per column: entries *)
+         List.iter (fun rg -> Buffer.add_string b " RG";
+                     List.iter (fun cv -> Buffer.add_string b " COL"; print_entries b (chunk_entries cv)) rg.rv_chunks) rgs
+       end;
+       Buffer.contents b)
+  | "stripe" ->
+    (* stripe <shape> <record>: the reference striping, per column *)
+    let fs = shape (next tk) in let v = parse_value tk in
+    let b = Buffer.create 1024 in
+    Buffer.add_string b (if has_tyb (TGroup fs) v then "TYPED" else "ILLTYPED");
+    List.iter (fun es -> Buffer.add_string b " COL"; print_entries b es) (shred_record fs v);
+    Buffer.contents b
+  | "read" ->
+    let fs = shape (next tk) in let file = tbytes tk in let mode = next tk in
+    let sched, fail =
+      (match String.split_on_char ':' mode with
+       | ["plain"] | ["eof"] -> [], None
+       | ["chunk"; k] | ["eofchunk"; k] -> List.init (List.length file + 64) (fun _ -> nat_of_int (int_of_string k)), None
+       | ["rand"; seed] -> let st = Random.State.make [| int_of_string seed |] in
+         List.init (List.length file + 64) (fun _ -> nat_of_int (1 + Random.State.int st 9)), None
+       | ["fail"; k] | ["failp"; k] -> [], Some (nat_of_int (int_of_string k))
+       | _ -> failwith ("bad mode " ^ mode)) in
+    let o = read_all_src decompress fs (mk_src file sched fail) in
+    let b = Buffer.create 4096 in
+    let status = if o.o_panic then "PANIC" else if not o.o_open_ok then "OPENERR" else if o.o_err then "ERR" else "OK" in
+    Buffer.add_string b (status ^ " rows=" ^ tok_of_z o.o_rows ^ " nexts=" ^ tok_of_n o.o_nexts);
+    Buffer.add_string b (" recs " ^ string_of_int (List.length o.o_recs));
+    List.iter (print_value b) o.o_recs;
+    Buffer.contents b
   | _ -> "UNKNOWN-KIND " ^ kind
